@@ -1,0 +1,37 @@
+//go:build verif
+
+package json
+
+// VerifEvent is emitted by Parse when the "verif" build tag is set.
+type VerifEvent struct {
+	Kind string // "enter" (state inherited from the pool, before reset), "exit", "lvl"
+	// enter: the dirty state
+	IB, PathLen, First int
+	QSat               bool
+	// exit
+	Query                   string
+	LRaw, Parsed, Inspected int
+	Lvl                     int
+}
+
+// VerifHook, when non-nil, receives scanner events.
+var VerifHook func(VerifEvent)
+
+func verifEnter(p *parserState) {
+	if h := VerifHook; h != nil {
+		h(VerifEvent{Kind: "enter", IB: p.ib, PathLen: len(p.currPath), First: p.firstToken, QSat: p.querySatisfied})
+	}
+}
+
+func verifExit(p *parserState, q string, lraw, parsed, inspected, first int, qsat bool) {
+	if h := VerifHook; h != nil {
+		h(VerifEvent{Kind: "exit", Query: q, LRaw: lraw, Parsed: parsed, Inspected: inspected,
+			First: first, QSat: qsat, PathLen: len(p.currPath), IB: p.ib})
+	}
+}
+
+func verifLvl(lvl int) {
+	if h := VerifHook; h != nil {
+		h(VerifEvent{Kind: "lvl", Lvl: lvl})
+	}
+}
